@@ -25,6 +25,8 @@
         task_handler._on_action_complete -> tasks.py:RegularTask.on_action_complete / Task.complete
         ("ignore if task already completed"), WithItemsTask.on_action_complete (is_with_items_completed,
         _get_final_state)                                                             -> deliver_task, deliver_at
+     mistral/engine/workflows.py:Workflow.start / _get_parent_workflow_execution (a sub-workflow started below a
+        CANCELLED workflow is cancelled at once, before any task is created)            -> new_child, start_child_at
    The three walks go THROUGH finished sub-workflows (a forced stop ERROR / SUCCESS of an inner execution leaves
    its sub-workflows running) and only skip the state change of the finished execution itself.
    Class of trees (in_class): no IDLE workflow execution (an execution is created and set RUNNING in one
@@ -119,6 +121,34 @@ Fixpoint at_path (p : path) (f : bool -> node -> node * outcome) (child : bool) 
       end
     end
   end.
+
+(* ------------------------------------------------------------------ *)
+(* late start of a sub-workflow                                         *)
+
+(* workflows.py:Workflow.start of a sub-workflow (the start_workflow request sent by WorkflowAction.schedule is
+   processed): set_state(RUNNING); if the execution that owns the parent task is CANCELLED - the cancel came while the
+   request was on its way - _cancel_workflow(parent's state_info) and return before any command is dispatched: the new
+   execution is CANCELLED with the parent's message, owns no task and reports to its parent task.  Otherwise it is
+   RUNNING (its first tasks are created by the workflow definition: not part of this model, the node is shown bare). *)
+Definition new_child (parent : node) : node :=
+  if state_eqb (nstate parent) CANCELLED then mkN CANCELLED (ninfo parent) 1 [] else mkN RUNNING 0 0 [].
+
+(* the start of task ti (task_handler.run_task -> RegularTask._run_new: an IDLE task becomes RUNNING;
+   WorkflowAction.schedule starts the sub-workflow - cnt of them for a with-items task - in the same transaction, or
+   the start_workflow request is processed later: cnt new executions are appended) *)
+Definition start_node (ti cnt : nat) (child : bool) (n : node) : node * outcome :=
+  match n with
+  | mkN st info sent ts =>
+    match nth_error ts ti with
+    | Some (s, k, subs) =>
+      (mkN st info sent (upd ti (fun _ => ((if state_eqb s IDLE then RUNNING else s), k, subs ++ repeat (new_child n) cnt)) ts), Ok)
+    | None => (n, Declared)
+    end
+  end.
+
+(* the address names the execution that owns the task, ti the task *)
+Definition start_child_at (p : path) (ti cnt : nat) (n : node) : node * outcome :=
+  match at_path p (start_node ti cnt) false n with Some r => r | None => (n, Declared) end.
 
 (* ------------------------------------------------------------------ *)
 (* class of trees                                                       *)
